@@ -224,6 +224,8 @@ def StructTag(
                 value[offset : offset + len(encoded)] = encoded
 
             for bit_member, (offset, bit) in cls.bits.items():
+                if bit_member in cls.private:
+                    continue
                 val = values[bit_member]
 
                 if val:
